@@ -94,6 +94,12 @@ type c25Request struct {
 }
 
 type c25Endpoint struct {
+	// gate is held (write-locked) by the driver while it feeds the groups of one log entry: the endpoint does not
+	// answer during that time, so the high watermark cannot move between two groups of the same entry (in the store
+	// they reach writeToBatcher within microseconds of each other; fed one by one with waits in between, a fast
+	// send could otherwise advance the watermark in the middle of an entry and writeToBatcher would drop the rest -
+	// a legal but different schedule from the one Model.C25.act describes)
+	gate     sync.RWMutex
 	mu       sync.Mutex
 	up       bool
 	tenure   int
@@ -117,6 +123,8 @@ func c25NewEndpoint() *c25Endpoint {
 	e.srv = httptest.NewServer(http.HandlerFunc(func(w http.ResponseWriter, r *http.Request) {
 		body, _ := io.ReadAll(r.Body)
 		r.Body.Close()
+		e.gate.RLock()
+		defer e.gate.RUnlock()
 		e.mu.Lock()
 		defer e.mu.Unlock()
 		if !e.up {
@@ -462,6 +470,13 @@ func (r *c25Run) do(a c25Action, byIndex map[uint64]*c25Entry) {
 		if e == nil {
 			return
 		}
+		r.ep.gate.Lock()
+		defer func() {
+			if e != nil {
+				r.ep.gate.Unlock()
+				e = nil
+			}
+		}()
 		for _, g := range e.Groups {
 			w0, ig0, rd0 := svc.writesToBatcher.Load(), c25Stat(numBatcherWriteIgnored), c25Stat(numBatcherReads)
 			svc.C() <- g
@@ -476,6 +491,8 @@ func (r *c25Run) do(a c25Action, byIndex map[uint64]*c25Entry) {
 				}
 			}
 		}
+		r.ep.gate.Unlock()
+		e = nil
 	case "flush":
 		ch := make(chan struct{})
 		r.cl.snap <- ch
